@@ -249,4 +249,108 @@ theorem operand_order_empty (db : Db) (small : Rat) (op : Op) (a : Operand) (ha 
   rw [ha]
   simp [Operand.q, OrdQ.qtype, Operand.valueIn]
 
+/-! ## comparisons asked after other operations: pooled objects that were hashed, used as operands of
+`+ - * /`, compared, converted, copied and pickled first -/
+
+/-- no operation performed with pooled objects alters a descriptor: after any history the pool is the pool -/
+theorem stir_keeps_pool (s : Session) (ops : List StirOp) : (s.run ops).pool = s.pool :=
+  Session.run_pool s ops
+
+/-- `==` and `!=` after any history are `==` and `!=` asked before it -/
+theorem stir_invisible_eq (s : Session) (ops : List StirOp) (small : Rat) (i j : Nat) :
+    (s.run ops).eq small i j = s.eq small i j ∧ (s.run ops).ne small i j = s.ne small i j := by
+  simp [Session.eq, Session.ne, Session.run_pool]
+
+/-- `hash` after any history, the memoised `Quantity._hash` included, is the hash of the descriptor
+(from any state whose memo is consistent with a well-formed pool) -/
+theorem stir_invisible_hash_inv {s : Session} (h : s.Inv) (ops : List StirOp) (i : Nat) :
+    ((s.run ops).hash i).1 = s.pureHash i := by
+  rw [(Session.hash_spec (Session.run_inv h ops) i).1]
+  unfold Session.pureHash
+  rw [Session.run_pool]
+
+/-- the same from the freshly built pool: nothing is memoised yet -/
+theorem stir_invisible_hash {pool : List PObj} (hwf : poolWF pool = true) (ops : List StirOp) (i : Nat) :
+    (((Session.fresh pool).run ops).hash i).1 = (Session.fresh pool).pureHash i :=
+  stir_invisible_hash_inv (Session.fresh_inv hwf) ops i
+
+/-- the verdicts after any history are a function of the two descriptors and of `a is b` only -/
+theorem stirred_verdicts_of_descriptors {pool : List PObj} (hwf : poolWF pool = true) (ops : List StirOp)
+    (small : Rat) {i j : Nat} {a b : PObj} (ha : pool[i]? = some a) (hb : pool[j]? = some b) :
+    ((Session.fresh pool).run ops).eq small i j = pyEq small a.obj b.obj (a.oid == b.oid)
+    ∧ ((Session.fresh pool).run ops).ne small i j = pyNe small a.obj b.obj (a.oid == b.oid)
+    ∧ (((Session.fresh pool).run ops).hash i).1 = pyHash a.obj
+    ∧ (((Session.fresh pool).run ops).hash j).1 = pyHash b.obj := by
+  refine ⟨?_, ?_, ?_, ?_⟩
+  · rw [(stir_invisible_eq _ ops small i j).1]; simp [Session.eq, Session.fresh, ha, hb]
+  · rw [(stir_invisible_eq _ ops small i j).2]; simp [Session.ne, Session.fresh, ha, hb]
+  · rw [stir_invisible_hash hwf]; simp [Session.pureHash, Session.fresh, ha]
+  · rw [stir_invisible_hash hwf]; simp [Session.pureHash, Session.fresh, hb]
+
+/-- after any history `==` of two pooled objects never raises -/
+theorem stirred_eq_never_raises (s : Session) (ops : List StirOp) (small : Rat) {i j : Nat}
+    (hi : i < s.pool.length) (hj : j < s.pool.length) : ∃ r, (s.run ops).eq small i j = .ok r := by
+  rw [(stir_invisible_eq s ops small i j).1]
+  unfold Session.eq
+  rw [List.getElem?_eq_getElem hi, List.getElem?_eq_getElem hj]
+  exact eq_never_raises small _ _ _
+
+/-- after any history `==` is symmetric -/
+theorem stirred_eq_symm (s : Session) (ops : List StirOp) (small : Rat) (i j : Nat) :
+    (s.run ops).eq small i j = (s.run ops).eq small j i := by
+  rw [(stir_invisible_eq s ops small i j).1, (stir_invisible_eq s ops small j i).1]
+  unfold Session.eq
+  cases s.pool[i]? <;> cases s.pool[j]? <;> try rfl
+  rename_i a b
+  show pyEq small a.obj b.obj (a.oid == b.oid) = pyEq small b.obj a.obj (b.oid == a.oid)
+  rw [eq_symm, BEq.comm]
+
+/-- after any history `==` is reflexive -/
+theorem stirred_eq_refl (s : Session) (ops : List StirOp) (small : Rat) {i : Nat} (hi : i < s.pool.length) :
+    (s.run ops).eq small i i = .ok true := by
+  rw [(stir_invisible_eq s ops small i i).1]
+  unfold Session.eq
+  rw [List.getElem?_eq_getElem hi]
+  exact eq_refl small _ _
+
+/-- after any history `!=` is `not ==` -/
+theorem stirred_ne_is_not_eq (s : Session) (ops : List StirOp) (small : Rat) (i j : Nat) :
+    (s.run ops).ne small i j = ((s.run ops).eq small i j).map (fun r => !r) := by
+  rw [(stir_invisible_eq s ops small i j).1, (stir_invisible_eq s ops small i j).2]
+  unfold Session.eq Session.ne
+  cases s.pool[i]? <;> cases s.pool[j]? <;> try rfl
+  exact ne_is_not_eq small _ _ _
+
+/-- after any history equal hashable pooled objects have equal hashes: a memoised `_hash` never
+disagrees with what `==` looks at -/
+theorem stirred_eq_hash {pool : List PObj} (hwf : poolWF pool = true) (ops : List StirOp) (small : Rat)
+    (i j : Nat) (h : ((Session.fresh pool).run ops).eq small i j = .ok true) {ka kb : HKey}
+    (ha : (((Session.fresh pool).run ops).hash i).1 = .ok ka)
+    (hb : (((Session.fresh pool).run ops).hash j).1 = .ok kb) : ka = kb := by
+  rw [stir_invisible_hash hwf] at ha hb
+  rw [(stir_invisible_eq _ ops small i j).1] at h
+  unfold Session.eq at h
+  unfold Session.pureHash at ha hb
+  simp only [Session.fresh] at h ha hb
+  cases hi : pool[i]? with
+  | none => rw [hi] at ha; cases ha
+  | some a =>
+    cases hj : pool[j]? with
+    | none => rw [hj] at hb; cases hb
+    | some b =>
+      rw [hi, hj] at h
+      rw [hi] at ha
+      rw [hj] at hb
+      refine eq_hash small a.obj b.obj (a.oid == b.oid) ?_ h ha hb
+      intro hs
+      exact PObj.compatible_obj (poolWF_compatible hwf (List.mem_of_getElem? hi) (List.mem_of_getElem? hj))
+        (by simpa using hs)
+
+/-- `hash(o)` never reaches `AbstractValueWithQuantityObject.__hash__` (NotImplementedError) for an object
+of the nine classes: Scalar defines `__hash__`; Array, FixedArray and FractionScalar define `__eq__`
+without `__hash__` and are unhashable (TypeError) -/
+theorem hash_never_the_abstract_base (o : Obj) : o.cls.hashSlot ≠ .raises := by
+  generalize o.cls = c
+  cases c <;> decide
+
 end Barril
